@@ -423,12 +423,93 @@ fn raw_build(rng: &mut Rng, keys: &[(Vec<u8>, u32)], nblocks: usize, prefer_wide
     }
 }
 
+/// node position reached after `key` in a hand-made array (harness-side helper to find where nodes and value units lie)
+fn raw_walk(units: &[u32], key: &[u8]) -> Option<usize> {
+    let off = |u: u32| ((u >> 10) << ((u & 512) >> 6)) as usize;
+    let mut pos = off(units[0]);
+    for &k in key {
+        let p = pos ^ k as usize;
+        let u = *units.get(p)?;
+        if u & 0x8000_00FF != k as u32 {
+            return None;
+        }
+        pos = p ^ off(u);
+    }
+    Some(pos)
+}
+
+/// all prefixes (the empty one included) of the keys
+fn key_prefixes(keys: &[(Vec<u8>, u32)]) -> Vec<Vec<u8>> {
+    let mut v: Vec<Vec<u8>> = vec![vec![]];
+    for (k, _) in keys {
+        for n in 1..=k.len() {
+            if !v.contains(&k[..n].to_vec()) {
+                v.push(k[..n].to_vec());
+            }
+        }
+    }
+    v
+}
+
+/// VALUE units (bit 31 set) lie in the same blocks as label units.  Give as many values as possible a low byte that equals
+/// the byte leading from some node of the same block to the value unit's slot: a reader that tells labels from values by the
+/// low byte alone would take the value unit for a child.  Returns the probe texts (prefix of the node + that byte + one more).
+fn raw_craft_values(units: &mut Vec<u32>, keys: &mut Vec<(Vec<u8>, u32)>) -> Vec<Vec<u8>> {
+    let prefixes = key_prefixes(keys);
+    let bases: Vec<(Vec<u8>, usize)> = prefixes.iter().filter_map(|p| raw_walk(units, p).map(|b| (p.clone(), b))).collect();
+    let mut probes = vec![];
+    for ki in 0..keys.len() {
+        let slot = match raw_walk(units, &keys[ki].0) {
+            Some(b) => b,
+            None => continue,
+        };
+        if units[slot] >> 31 != 1 {
+            continue;
+        }
+        for (pre, b) in &bases {
+            let k = (b ^ slot) & 0xff;
+            if b >> 8 == slot >> 8 && k != 0 && *b != slot {
+                let v = (keys[ki].1 & !0xff) | k as u32;
+                keys[ki].1 = v;
+                units[slot] = v | (1 << 31);
+                let mut t = pre.clone();
+                t.push(k as u8);
+                t.push(b'a');
+                probes.push(t);
+                break;
+            }
+        }
+    }
+    probes
+}
+
+/// after every accepted prefix probe all 255 next bytes (followed by one more byte): nothing may match unless a key continues
+fn raw_probe_all(trie: &sudachi::dic::lexicon::trie::Trie, keys: &[(Vec<u8>, u32)]) -> Option<String> {
+    for pre in key_prefixes(keys) {
+        for k in 1..=255u8 {
+            let mut t = pre.clone();
+            t.push(k);
+            t.push(b'a');
+            let r = catch(|| trie.common_prefix_iterator(&t, 0).map(|e| (e.value, e.end)).collect::<Vec<_>>());
+            let mut want: Vec<(u32, usize)> = keys.iter().filter(|(key, _)| t.starts_with(key)).map(|(key, v)| (*v, key.len())).collect();
+            want.sort_by_key(|x| x.1);
+            match r {
+                Ok(v) if v == want => {}
+                Ok(v) => return Some(format!("hand-made double array, probing byte {:#04x} after the accepted prefix {}: text {} offset 0: common_prefix_iterator gives {:?}, the key set gives {:?} (value, end)", k, hex(&pre), hex(&t), v, want)),
+                Err(p) => return Some(format!("hand-made double array, probing byte {:#04x} after the accepted prefix {}: text {} offset 0: traversal panicked: {}", k, hex(&pre), hex(&t), p)),
+            }
+        }
+    }
+    None
+}
+
 fn run_raw_case(sink: &mut Sink, units: &[u32], keys: &[(Vec<u8>, u32)], texts: &[Vec<u8>], nwide: usize, verbose: bool) {
     use sudachi::dic::lexicon::trie::Trie;
     let d = json!({"kind": "c04-raw", "units": units, "keys": keys.iter().map(|(k, v)| json!([hex(k), v])).collect::<Vec<_>>(),
                    "texts": texts.iter().map(|t| hex(t)).collect::<Vec<_>>(), "wide_offsets": nwide});
     let trie = Trie::new_owned(units.to_vec());
-    let mut bad: Option<String> = None;
+    let mut bad: Option<String> = raw_probe_all(&trie, keys);
+    sink.tag("raw_array_all_next_bytes_probed");
     let mut qterms = vec![];
     let mut hits = 0;
     for t in texts {
@@ -491,8 +572,9 @@ fn gen_raw_case(rng: &mut Rng) -> Option<(Vec<u32>, Vec<(Vec<u8>, u32)>, Vec<Vec
     }
     let nblocks = 2 + rng.below(3) as usize;
     let prefer_wide = !rng.chance(1, 5);
-    let (units, nwide) = raw_build(rng, &keys, nblocks, prefer_wide)?;
-    let mut texts = vec![];
+    let (mut units, nwide) = raw_build(rng, &keys, nblocks, prefer_wide)?;
+    let mut texts = raw_craft_values(&mut units, &mut keys);
+    texts.truncate(4);
     for _ in 0..3 {
         let mut t = vec![];
         for _ in 0..1 + rng.below(3) {
@@ -605,6 +687,44 @@ fn run_case(sink: &mut Sink, csvs: &[String], texts: &[String], exacts: &[String
     }
     // lookups at every byte offset
     let mut bad: Option<String> = None;
+    // directed probing of the compiled arrays: after every accepted prefix of a key try all 255 next bytes (plus one more byte);
+    // nothing may be returned unless a key continues that way
+    if csvs.len() <= 2 {
+        let mut prefixes: Vec<Vec<u8>> = vec![vec![]];
+        for rows in &all {
+            for r in rows.iter().filter(|r| r.left >= 0) {
+                let b = r.surface.as_bytes();
+                for n in 1..=b.len() {
+                    if prefixes.len() < 48 && !prefixes.contains(&b[..n].to_vec()) {
+                        prefixes.push(b[..n].to_vec());
+                    }
+                }
+            }
+        }
+        'probe: for pre in &prefixes {
+            for k in 1..=255u8 {
+                let mut t = pre.clone();
+                t.push(k);
+                t.push(b'a');
+                let r = catch(|| loaded.lexicon_set.lookup(&t, 0).map(|e| (e.word_id.as_raw(), e.end)).collect::<Vec<_>>());
+                let nv = naive(&all, &t, 0);
+                match r {
+                    Ok(mut v) => {
+                        v.sort();
+                        if v != nv {
+                            bad = Some(format!("probing byte {:#04x} after the accepted prefix {}: bytes {} offset 0: lookup gives {:?}, CSV scan gives {:?} ((dic<<28|word), end)", k, hex(pre), hex(&t), v, nv));
+                            break 'probe;
+                        }
+                    }
+                    Err(p) => {
+                        bad = Some(format!("probing byte {:#04x} after the accepted prefix {}: bytes {} offset 0: lookup panicked: {}", k, hex(pre), hex(&t), p));
+                        break 'probe;
+                    }
+                }
+            }
+        }
+        sink.tag("compiled_array_all_next_bytes_probed");
+    }
     let mut qterms = vec![];
     let mut total_hits = 0usize;
     for t in texts {
